@@ -1,6 +1,7 @@
 package props
 
 import (
+	"regexp"
 	"strings"
 
 	"occheck/internal/engine"
@@ -136,14 +137,17 @@ func candidateDocument(c *engine.Ctx) {
 						bad = "an entry of the change source " + c.Render(le.Range) + " is not written into the candidate map under its own key"
 					}
 					seen["merge:"+le.Range] = true
-				case strings.HasPrefix(le.Range, "make(map[string]*config/v2.PathValue)@"):
+				case strings.HasPrefix(le.Range, "make(map[string]*config/v2.PathValue)@") && !(le.Fn != nil && strings.HasSuffix(le.Fn.Name(), ".applyChangeToConfig")):
+					// (a loop over the candidate map inside an inlined helper — the tombstone search of
+					// applyChangeToConfig — is not the loop that fills the slice)
 					// filling the slice given to BuildTree
 					ok := false
 					for _, b := range body {
 						if b.Kind == engine.EvCond && b.Loops == le.LoopID {
 							bad = "an entry of the candidate map can be left out of the validated document"
 						}
-						if b.Kind == engine.EvWrite && b.Local != nil && strings.HasPrefix(b.RHS, "append(") && strings.HasSuffix(b.RHS, ",elem("+le.Range+"))") {
+						// (a second range over the same map on one path names its element elem'2(…))
+						if b.Kind == engine.EvWrite && b.Local != nil && strings.HasPrefix(b.RHS, "append(") && (strings.HasSuffix(b.RHS, ",elem("+le.Range+"))") || elemOcc.MatchString(b.RHS) && strings.HasSuffix(b.RHS, "("+le.Range+"))")) {
 							ok = true
 						}
 					}
@@ -508,3 +512,5 @@ func pluginVerdict(c *engine.Ctx) {
 		}
 	}
 }
+
+var elemOcc = regexp.MustCompile(`,elem'[0-9]+\(`)
